@@ -78,7 +78,7 @@ Local Open Scope nat_scope.
 def prologue_check(d, tier, coq, build):
     """Copy's prologue: the source reads the wrappers saw in the prologue and the initial proxy cache the acceptor was
     given are what CopyTop.prologue_fetches / cache_after_resolve compute (vm_compute inside Coq)"""
-    want = 1500 if tier == "thorough" else 200
+    want = 1500 if tier == "thorough" else 120
     goals, seen = [], set()
     with open(os.path.join(d, "cases.txt")) as f:
         for l in f:
@@ -165,7 +165,7 @@ def refs_check(d, tier, coq, build):
 def links_check(d, tier, coq, build):
     """every distinct generated graph: the regenerated link schema applied to the generator's fields gives the
     successor lists and flags that the acceptor was run with (vm_compute inside Coq)"""
-    want = 2000 if tier == "thorough" else 250
+    want = 2000 if tier == "thorough" else 150
     seen, goals = set(), []
     with open(os.path.join(d, "cases.txt")) as f:
         for l in f:
